@@ -82,7 +82,7 @@ def replay_state(ctx, gridmod, c, h):
         case = dict(case0, coarse=g)
         try:
             obs = observe_intersect(cat, coarse, g, s, fxll, fyll, filled=bool(h % 2))
-        except ValueError:
+        except Exception:
             if it["cells"]:
                 ctx.violation("intersect:error", "error although %d cells overlap" % len(it["cells"]), case)
             continue            # no overlap: {error, empty} both accepted
@@ -172,7 +172,7 @@ def code_to_spec(ctx, gridmod, n):
         o = fr * fc - 1 if hole else int(rng.integers(0, fr * fc))
         try:
             cat.delineate_area(o, nval=fr * fc + 2)
-        except ValueError:
+        except Exception:
             continue
         filled = bool(rng.random() < 0.5) or hole
         cells = [int(c) for c in (cat.idxcells_area_filled if filled else cat.idxcells_area)]
@@ -185,7 +185,7 @@ def code_to_spec(ctx, gridmod, n):
         try:
             obs = observe_intersect(cat, coarse, g, s, fxll, fyll, filled)
             recs.append(dict(obs, kind="intersect", fr=fr, fc=fc, cells=cells, g=g))
-        except ValueError:
+        except Exception:
             recs.append({"kind": "intersect", "fr": fr, "fc": fc, "cells": cells, "g": g, "out_cells": [], "out_counts": [],
                          "ag": {"row_start": 0, "row_end": 0, "col_start": 0, "col_end": 0, "data": [], "xll": 0, "yll": 0}})
         # the same question for a catchment obtained by set algebra from one that was already intersected
@@ -200,10 +200,10 @@ def code_to_spec(ctx, gridmod, n):
                     try:
                         obs2 = observe_intersect(comb, coarse, g, s, fxll, fyll, False)
                         recs.append(dict(obs2, kind="intersect", fr=fr, fc=fc, cells=cc, g=g))
-                    except ValueError:
+                    except Exception:
                         recs.append({"kind": "intersect", "fr": fr, "fc": fc, "cells": cc, "g": g, "out_cells": [], "out_counts": [],
                                      "ag": {"row_start": 0, "row_end": 0, "col_start": 0, "col_end": 0, "data": [], "xll": 0, "yll": 0}})
-        except ValueError:
+        except Exception:
             pass
         npts = int(rng.integers(1, 7))
         if rng.random() < 0.5:
